@@ -186,18 +186,28 @@ HOWS = ["clean exit", "exception", "clean exit with a teardown callback", "cance
 
 
 def child_params(tier):
-    return [P("how", 0, 3), P("nested", 0, 1), P("sametask", 0, 2)]
+    return [P("how", 0, 3), P("nested", 0, 1), P("sametask", 0, 3), P("falsy", 0, 1)]
 
 
 @guard
 def child_fn(a, tier):
     from .common import flatten
 
-    how, nested, sametask = pick(a["how"], 4), pick(a["nested"], 2), pick(a["sametask"], 3)
+    how, nested, sametask = pick(a["how"], 4), pick(a["nested"], 2), pick(a["sametask"], 4)
     # sametask 2: held by another task which has already left the child's block: the child is in the middle of its teardown (an async callback is
     # waiting) - it still accepts resources and callbacks, i.e. it is still open in the sense of this property
     mid_teardown = sametask == 2
+    # sametask 3: entered by another task that has ENDED without leaving it; nothing references the child any more and the garbage collector has run
+    leaked = sametask == 3
     sametask = 1 if sametask == 1 else 0
+    falsy = pick(a["falsy"], 2)
+
+    class Batch(Context):
+        """A context that is also a (currently empty) container: its instances are falsy."""
+
+        def __len__(self):
+            return 0
+
     out = {}
 
     async def main():
@@ -209,7 +219,7 @@ def child_fn(a, tier):
                 """A well-nested `async with` block that is left while a child is still open."""
                 with anyio.CancelScope() as scope:
                     try:
-                        async with Context() as parent:
+                        async with (Batch() if falsy else Context()) as parent:
                             out["parent"] = parent
 
                             async def holder():
@@ -224,7 +234,18 @@ def child_fn(a, tier):
                                         entered.set()
                                         await release.wait()
 
-                            if sametask:
+                            async def leaker():
+                                await Context(parent).__aenter__()
+                                entered.set()
+
+                            if leaked:
+                                import gc
+
+                                tg.start_soon(leaker)
+                                await entered.wait()
+                                await anyio.sleep(0)
+                                gc.collect()
+                            elif sametask:
                                 child = Context(parent)
                                 await child.__aenter__()  # entered by hand and never left
                             else:
@@ -253,7 +274,8 @@ def child_fn(a, tier):
             tg.cancel_scope.cancel()
 
     _, exc, _k = run(main)
-    summary = {"parent": "nested" if nested else "root", "parent_left_by": HOWS[how], "child": "entered in the same task" if sametask else "held by another task, in the middle of its own teardown (async callback waiting)" if mid_teardown else "held open by another task"}
+    summary = {"parent": "nested" if nested else "root", "parent_left_by": HOWS[how], "child": "entered by a task that ended without leaving it, unreferenced, after a GC run" if leaked else "entered in the same task" if sametask else "held by another task, in the middle of its own teardown (async callback waiting)" if mid_teardown else "held open by another task",
+               "parent_class": "a falsy Context subclass" if falsy else "Context"}
     e = out.get("exit")
     reported = e is not None and any(isinstance(x, RuntimeError) for x in flatten(e))
     if not reported:
@@ -270,7 +292,7 @@ CHILD = Harness(
     params=child_params,
     cube=lambda tier: 0,
     title="leaving a context while a child context entered from it is still open",
-    bound_text=lambda tier: "parent root / nested x left by {" + "; ".join(HOWS) + "} x child held open by another task / entered by hand in the same task / held by another task and in the middle of its own teardown",
+    bound_text=lambda tier: "parent root / nested x left by {" + "; ".join(HOWS) + "} x child held open by another task / entered by hand in the same task / held by another task and in the middle of its own teardown / entered by a task that ended without leaving it (unreferenced, after a GC run) x parent a plain / falsy Context",
     oracle="the parent's exit raises a RuntimeError (possibly inside a group) naming the problem; the parent reports closed",
     outside="-",
     stubs=STUBS_COMMON,
